@@ -1,0 +1,24 @@
+//go:build !verif
+
+package goja
+
+// No-op counterparts of the verification hooks in verif_hooks.go (build tag "verif").
+// All of these are empty and inlined away in the normal build.
+
+type verifState struct{}
+
+func verifStep(*vm) {}
+
+func verifPtr(dataLen, off, size int) {}
+
+func verifJob(_ *Runtime, job func()) func() { return job }
+
+func verifJobsIdle(*Runtime) {}
+
+func verifJobsDropped(*Runtime, int) {}
+
+func verifResumed(*vm, *execCtx) {}
+
+func verifArrayTransition(*Object, bool) {}
+
+func verifPoint(*Runtime, string) {}
